@@ -115,6 +115,8 @@ def run_xforms(rep, tier, seed, prop, corpus_file, recipes, gen_programs, n_inpu
                         key = (repr(args), cs)
                         if key not in base: base[key] = run_real(fn, args, ctx)
                         want = base[key]
+                        if want.startswith('timeout'):
+                            rep.count('timeout'); continue
                         got = run_real(xf, args, ctx)
                         rep.cov['evaluations'] += 1
                         rep.distinct.add((label, name, key))
